@@ -881,6 +881,7 @@ pub fn run(ctx: &Ctx) -> Report {
         cases.push(Case::R565(r));
         cases.push(Case::R555(r));
     }
+    let cases = crate::report::shard(cases, ctx.shard);
     let threads = if miri { 1 } else { ctx.threads };
     let mut rep = par_run(&cases, threads, |_i, c, rep| match c {
         Case::Tables => {
